@@ -1,6 +1,9 @@
 package main
 
 import (
+	"github.com/rminnich/go9p"
+	"path/filepath"
+	"os"
 	"fmt"
 	"strings"
 
@@ -199,6 +202,137 @@ func c11Spec(p c11Params, mapMonitor bool) *VsSpec {
 	}}
 }
 
+// c11UfsDescriptors: the Unix file server closes every file it opened for the
+// connection. Histories that leave files and directories open in different ways
+// (opened, created, listed once and several times, some clunked) end in a disconnect;
+// afterwards no descriptor of the process refers into the exported tree.
+func c11UfsDescriptors(dotu bool) Scenario {
+	name := fmt.Sprintf("ufs-descriptors-closed dotu=%v", dotu)
+	return Scenario{Name: name, Run: func(rc *RunCtx) *Result {
+		res := &Result{Exhaustive: true}
+		base, root := scratchDir("c11")
+		defer os.RemoveAll(base)
+		into := func() []string {
+			var out []string
+			ents, _ := os.ReadDir("/proc/self/fd")
+			for _, e := range ents {
+				if t, err := os.Readlink("/proc/self/fd/" + e.Name()); err == nil && strings.HasPrefix(t, root) {
+					out = append(out, t)
+				}
+			}
+			return out
+		}
+		type step struct {
+			what string
+			do   func(rpc func(m *wire.Msg) *wire.Msg)
+		}
+		open := func(fid uint32, mode uint8, names ...string) func(rpc func(m *wire.Msg) *wire.Msg) {
+			return func(rpc func(m *wire.Msg) *wire.Msg) {
+				rpc(twalk(0, 0, fid, names...))
+				rpc(&wire.Msg{Type: wire.Topen, Fid: fid, Mode: mode})
+			}
+		}
+		list := func(fid uint32, times int) func(rpc func(m *wire.Msg) *wire.Msg) {
+			return func(rpc func(m *wire.Msg) *wire.Msg) {
+				for t := 0; t < times; t++ {
+					off := uint64(0)
+					for {
+						r := rpc(&wire.Msg{Type: wire.Tread, Fid: fid, Offset: off, Count: 4096})
+						if r == nil || r.Type != wire.Rread || len(r.Data) == 0 {
+							break
+						}
+						off += uint64(len(r.Data))
+					}
+				}
+			}
+		}
+		histories := [][]step{
+			{{"a file left open", open(1, 0, "f")}},
+			{{"a directory left open, never listed", open(1, 0, "d")}},
+			{{"a directory listed once", open(1, 0, "d")}, {"", list(1, 1)}},
+			{{"a directory listed three times from offset 0", open(1, 0, "d")}, {"", list(1, 3)}},
+			{{"the root listed twice and a file read", open(1, 0)}, {"", list(1, 2)}, {"", open(2, 0, "f")}, {"", func(rpc func(m *wire.Msg) *wire.Msg) { rpc(&wire.Msg{Type: wire.Tread, Fid: 2, Count: 16}) }}},
+			{{"a created file left open", func(rpc func(m *wire.Msg) *wire.Msg) {
+				rpc(twalk(0, 0, 1, "d"))
+				rpc(&wire.Msg{Type: wire.Tcreate, Fid: 1, Name: "made", Perm: 0644, Mode: 1})
+				rpc(&wire.Msg{Type: wire.Twrite, Fid: 1, Data: []byte("x")})
+			}}},
+			{{"a created directory left open and listed", func(rpc func(m *wire.Msg) *wire.Msg) {
+				rpc(twalk(0, 0, 1, "d"))
+				rpc(&wire.Msg{Type: wire.Tcreate, Fid: 1, Name: "madedir", Perm: go9p.DMDIR | 0755, Mode: 0})
+			}}, {"", list(1, 2)}},
+			{{"three files open, one clunked, one reopened after a failed open", open(1, 0, "f")}, {"", open(2, 2, "f")}, {"", open(3, 0, "d")}, {"", func(rpc func(m *wire.Msg) *wire.Msg) {
+				rpc(&wire.Msg{Type: wire.Tclunk, Fid: 2})
+				rpc(&wire.Msg{Type: wire.Topen, Fid: 1, Mode: 0}) // already open: refused
+				rpc(twalk(0, 0, 4, "f"))
+				rpc(&wire.Msg{Type: wire.Topen, Fid: 4, Mode: 1})
+			}}, {"", list(3, 2)}},
+			{{"a file opened through a symbolic link, truncating", open(1, 0x11, "ln")}},
+		}
+		seen := map[string]bool{}
+		for hi, h := range histories {
+			os.RemoveAll(root)
+			os.MkdirAll(filepath.Join(root, "d", "sub"), 0o755)
+			os.WriteFile(filepath.Join(root, "f"), []byte("file contents"), 0o644)
+			os.WriteFile(filepath.Join(root, "d", "e1"), []byte("1"), 0o644)
+			os.WriteFile(filepath.Join(root, "d", "e2"), []byte("2"), 0o644)
+			os.Symlink("f", filepath.Join(root, "ln"))
+			before := into()
+			var bad string
+			body := func() {
+				h9 := newUfsH(root, 8216, dotu)
+				cl := h9.Connect()
+				ver := "9P2000"
+				if dotu {
+					ver = "9P2000.u"
+				}
+				cl.Version(8216, ver)
+				tag := uint16(1)
+				rpc := func(m *wire.Msg) *wire.Msg { tag++; m.Tag = tag; return cl.Rpc(m) }
+				un := ""
+				if !dotu {
+					un = go9p.OsUsers.Uid2User(os.Geteuid()).Name()
+				}
+				if r := rpc(tattach(0, 0, wire.NOFID, un, uint32(os.Geteuid()), dotu)); r == nil || r.Type != wire.Rattach {
+					bad = fmt.Sprintf("attach answered by %v", r)
+					return
+				}
+				for _, st := range h {
+					st.do(rpc)
+				}
+				if len(into()) == len(before) {
+					bad = "harness: the history left nothing open"
+					return
+				}
+				cl.End.Close()
+				vs.Idle()
+			}
+			x := vs.Run(nil, body, vs.Options{Horizon: 100000000})
+			res.Evals++
+			res.Nontrivial++
+			res.Traces++
+			if len(x.Panics) > 0 {
+				bad = "panic: " + x.Panics[0].Value
+			}
+			if after := into(); bad == "" && len(after) != len(before) {
+				bad = fmt.Sprintf("%d descriptors of the server still refer into the exported tree after the disconnect (%v), %d did before the connection", len(after), after, len(before))
+			}
+			if bad != "" {
+				sig := "C11/ufs-descriptor-left-open"
+				if strings.HasPrefix(bad, "harness") || strings.HasPrefix(bad, "panic") || strings.HasPrefix(bad, "attach") {
+					sig = "C11/ufs-descriptors/" + sigWords(bad)
+				}
+				if !seen[sig] {
+					seen[sig] = true
+					res.Findings = append(res.Findings, Finding{Sig: sig, Msg: fmt.Sprintf("history %d (%s): %s", hi, h[0].what, bad)})
+				}
+			}
+		}
+		res.Samples = append(res.Samples, fmt.Sprintf("%d histories on the real Ufs (files and directories opened, created, listed 1-3 times, clunked, through a symlink), disconnect, then /proc/self/fd", len(histories)))
+		return res
+	}}
+}
+
 func tail(s []string, n int) []string {
 	if len(s) > n {
 		return s[len(s)-n:]
@@ -209,6 +343,7 @@ func tail(s []string, n int) []string {
 func c11Scenarios(tier string) []Scenario {
 	var out []Scenario
 	out = append(out, heldAcrossClunkScenario("C11"))
+	out = append(out, c11UfsDescriptors(false), c11UfsDescriptors(true))
 	add := func(p c11Params) {
 		idx := make([]int, len(p.Parked))
 		for i := range idx {
@@ -258,7 +393,7 @@ func c11Scenarios(tier string) []Scenario {
 func init() {
 	register(&Property{ID: "C11", Level: "model_checking",
 		Technique: "stateless model checking of the real server under a controlled scheduler; leaks decided at the final quiescent state",
-		Rule:      "every schedule with at most P preemptions from the disconnect onwards, per scenario: every prefix of a history that leaves fids attached/walked/open/created/clunked x set of requests parked in the implementation x every release order x disconnect at a frame boundary / mid-frame / right after a request / while the server's writer is blocked inside Write (client stopped reading) x Maxpend 0/2 x dialect, with a bystander connection; plus sequential histories in which a request is held on a fid across its clunk / remove and the re-binding of its number, then completes, then the client disconnects; distinct = distinct per-object operation orders",
-		Assumptions: []string{"code between two synchronisation operations is atomic (race-free executions)", "a client disconnect is the client end closing: the server reads EOF after draining, its writes fail", "the Ufs file-descriptor clause is checked separately by the Ufs scenarios"},
+		Rule:      "every schedule with at most P preemptions from the disconnect onwards, per scenario: every prefix of a history that leaves fids attached/walked/open/created/clunked x set of requests parked in the implementation x every release order x disconnect at a frame boundary / mid-frame / right after a request / while the server's writer is blocked inside Write (client stopped reading) x Maxpend 0/2 x dialect, with a bystander connection; plus sequential histories in which a request is held on a fid across its clunk / remove and the re-binding of its number, then completes, then the client disconnects; 9 histories on the real Ufs after which no descriptor may refer into the exported tree; distinct = distinct per-object operation orders",
+		Assumptions: []string{"code between two synchronisation operations is atomic (race-free executions)", "a client disconnect is the client end closing: the server reads EOF after draining, its writes fail", "the Ufs file-descriptor clause is checked by sequential histories on the real Ufs with /proc/self/fd as the oracle (a garbage collection in between could only hide a leak, never invent one)"},
 		Scenarios:   c11Scenarios, QuickS: 180, ThoroughS: 1500})
 }
